@@ -30,6 +30,11 @@ def run_one(d):
     return d, dict(demo), res, meta
 
 
+def superseded_all():
+    return [d for d in sorted(os.listdir(SEEDED)) if re.match(r"C\d\d-[A-Z]$", d)
+            and json.load(open(os.path.join(SEEDED, d, "meta.json"))).get("superseded")]
+
+
 def main():
     dirs = sys.argv[1:] or sorted(x for x in os.listdir(SEEDED) if re.match(r"C\d\d-[A-Z]$", x))
     superseded = [d for d in dirs if json.load(open(os.path.join(SEEDED, d, "meta.json"))).get("superseded")]
@@ -52,8 +57,24 @@ def main():
     lines += ["", f"{len(rows)} changes, {missed} missed by every check that was run against them."]
     for d in superseded:
         lines.append(f"Not run: {d} - superseded " + json.load(open(os.path.join(SEEDED, d, "meta.json")))["superseded"])
+    status = os.path.join(SEEDED, "STATUS.md")
     if not sys.argv[1:]:
-        open(os.path.join(SEEDED, "STATUS.md"), "w").write("\n".join(lines) + "\n")
+        open(status, "w").write("\n".join(lines) + "\n")
+    elif os.environ.get("SEEDED_MERGE") and os.path.exists(status):
+        # replace the rows of the changes that were re-run, keep the others, recount
+        new_rows = {l.split("|")[1].strip(): l for l in lines if l.startswith("| C")}
+        old = open(status).read().splitlines()
+        body = [new_rows.pop(l.split("|")[1].strip(), l) if l.startswith("| C") else l for l in old]
+        rows_ = sorted([l for l in body if l.startswith("| C")] + list(new_rows.values()))
+        rows_ = [l for l in rows_ if l.split("|")[1].strip() not in superseded_all()]
+        miss = sum(1 for l in rows_ if "caught" not in l.split("|")[-2])
+        head = [l for l in old if not l.startswith("| C") and not l.startswith("Not run:") and " changes, " not in l]
+        while head and head[-1] == "":
+            head.pop()
+        tail = ["", f"{len(rows_)} changes, {miss} missed by every check that was run against them."]
+        for d in superseded_all():
+            tail.append(f"Not run: {d} - superseded " + json.load(open(os.path.join(SEEDED, d, "meta.json")))["superseded"])
+        open(status, "w").write("\n".join(head + rows_ + tail) + "\n")
     print("\n".join(lines[6:]))
     return 0
 
